@@ -168,7 +168,10 @@ func (gta *GlobalTSOAllocator) GenerateTSO(count uint32) (pdpb.Timestamp, error)
 	// No dc-locations configured in the cluster, use the normal Global TSO generation way.
 	// (without synchronization with other Local TSO Allocators)
 	if len(dcLocationMap) == 0 {
-		return gta.timestampOracle.getTS(gta.leadership, count, 0)
+		// Keep the suffix bits the Global TSOs of this allocator were differentiated with while dc-locations existed
+		// (they never shrink): once the last dc-location is gone, an unshifted logical part would be smaller than
+		// the shifted ones already returned for the same physical time.
+		return gta.timestampOracle.getTS(gta.leadership, count, gta.allocatorManager.GetSuffixBits())
 	}
 
 	// Have dc-locations configured in the cluster, use the Global TSO generation way.
